@@ -127,7 +127,7 @@ def custom(ctx):
     ctx.standard_run()
     if not ctx.spec.get("harness") or not ctx.harness_ok:
         return
-    reqs = sorted(r for r in ctx.distinct if r.startswith("C12.run\t"))
+    reqs = sorted(r for r in ctx.distinct if r.startswith(("C12.run\t", "C12.hof\t")))
     if not reqs:
         return
     answers = ctx.run_model(["C12.tame" + r[len("C12.run"):] for r in reqs])
@@ -183,7 +183,8 @@ SPEC = {
         "differs_unused_argument_expanded", "differs_argument_repainted",
         "differs_painted_function_name_reinvoked", "differs_painted_function_name_reinvoked_acyclic",
         "differs_function_name_before_vanished_macro", "differs_empty_argument_next_to_paste",
-        "agrees_on_invocation_completed_after_expansion", "differs_outside_class_with_paste",
+        "agrees_on_invocation_completed_after_expansion", "agrees_on_higher_order_invocation",
+        "differs_outside_class_with_paste",
         "differs_invocation_spanning_file_boundary"]],
     "harness": "c12",
     "nontrivial": nontrivial,
